@@ -1,4 +1,5 @@
-(* WSessionProofs.v -- theorems about the write-session machine of WSession.v (property C15). *)
+(* WSessionProofs.v -- theorems about the write-session machine of WSession.v (property C15),
+   for the code after the repair of the poisoning defect (_register_and_archive with rollback). *)
 From P7 Require Import Prelude Crc32 WSession.
 From Coq Require Import ZifyBool.
 Open Scope Z_scope.
@@ -11,6 +12,7 @@ Hypothesis deq_spec : forall a b, deq a b = true <-> a = b.
 
 Notation wstate := (wstate D).
 Notation archive := (archive dg).
+Notation reg_archive := (reg_archive dg).
 Notation call_write := (call_write dg).
 Notation call_data := (call_data dg).
 Notation elem_writeall := (elem_writeall dg).
@@ -29,6 +31,7 @@ Proof. intros a. apply deq_spec. reflexivity. Qed.
 (* ------------------------------------------------------------------ *)
 
 Definition sub_of (bs : bytes) : nat * D := (length bs, dg bs).
+Definition slice_of (bs : bytes) : bytes * D := (bs, dg bs).
 Definition datas (ms : list (Z * mres)) : list bytes :=
   flat_map (fun m => match snd m with MData bs => [bs] | _ => [] end) ms.
 Definition info (ms : list (Z * mres)) : list (Z * bool) :=
@@ -40,75 +43,96 @@ Lemma cut_cons : forall n (c : D) r stream, r <> [] ->
   if (n <=? length stream)%nat then option_map (cons (firstn n stream, c)) (cut r (skipn n stream)) else None.
 Proof. intros n c r stream H. destruct r; [contradiction | reflexivity]. Qed.
 
-Lemma cut_concat : forall l, cut (map sub_of l) (concat l) = Some (map (fun bs => (bs, dg bs)) l).
+(* the slices of the members in front of the last sub-stream are exact, whatever follows *)
+Lemma cut_app : forall l (r : list (nat * D)) rest, r <> [] ->
+  cut (map sub_of l ++ r) (concat l ++ rest) = option_map (app (map slice_of l)) (cut r rest).
 Proof.
-  induction l as [|a l IH]; [reflexivity|].
-  destruct l as [|b l].
-  - simpl. rewrite app_nil_r. reflexivity.
-  - change (map sub_of (a :: b :: l)) with ((length a, dg a) :: map sub_of (b :: l)).
-    change (concat (a :: b :: l)) with (a ++ concat (b :: l)).
-    rewrite cut_cons by discriminate.
-    assert (Hle : (length a <=? length (a ++ concat (b :: l)))%nat = true)
+  induction l as [|a l IH]; intros r rest Hr.
+  - simpl. destruct (cut r rest); reflexivity.
+  - change (map sub_of (a :: l) ++ r) with ((length a, dg a) :: (map sub_of l ++ r)).
+    change (concat (a :: l) ++ rest) with ((a ++ concat l) ++ rest).
+    rewrite cut_cons by (destruct l; simpl; [exact Hr | discriminate]).
+    rewrite <- app_assoc.
+    assert (Hle : (length a <=? length (a ++ concat l ++ rest))%nat = true)
       by (apply Nat.leb_le; rewrite app_length; lia).
-    rewrite Hle.
-    rewrite firstn_app, Nat.sub_diag, firstn_all, firstn_O, app_nil_r.
+    rewrite Hle, firstn_app, Nat.sub_diag, firstn_all, firstn_O, app_nil_r.
     rewrite skipn_app, Nat.sub_diag, skipn_all, skipn_O.
-    change ([] ++ concat (b :: l)) with (concat (b :: l)). rewrite IH. reflexivity.
+    change ([] ++ concat l ++ rest) with (concat l ++ rest).
+    rewrite (IH r rest Hr). destruct (cut r rest); reflexivity.
 Qed.
 
-Lemma assign_full : forall ms, no_crc ms ->
-  assign (info ms) (map (fun bs => (bs, dg bs)) (datas ms)) = Some ms.
+Lemma cut_concat : forall l, cut (map sub_of l) (concat l) = Some (map slice_of l).
 Proof.
-  induction ms as [|[n r] ms IH]; intros Hn; [reflexivity|].
-  assert (Hn' : no_crc ms) by (intros m Hm; apply Hn; right; exact Hm).
-  destruct r as [|bs|].
-  - change (assign (info ((n, MDir) :: ms)) (map (fun bs => (bs, dg bs)) (datas ((n, MDir) :: ms))))
-      with (option_map (cons (n, MDir)) (assign (info ms) (map (fun bs => (bs, dg bs)) (datas ms)))).
-    rewrite (IH Hn'). reflexivity.
-  - change (assign (info ((n, MData bs) :: ms)) (map (fun bs => (bs, dg bs)) (datas ((n, MData bs) :: ms))))
-      with (option_map (cons (n, if deq (dg bs) (dg bs) then MData bs else MCrc))
-                       (assign (info ms) (map (fun bs => (bs, dg bs)) (datas ms)))).
-    rewrite (IH Hn'), deq_refl. reflexivity.
-  - exfalso. apply (Hn (n, MCrc)); [left; reflexivity | reflexivity].
+  intros l. destruct l as [|x l0]; [reflexivity|].
+  destruct (@exists_last _ (x :: l0)) as [l' [a E]]; [discriminate|]. rewrite E.
+  rewrite map_app, concat_app. simpl. rewrite cut_app by discriminate.
+  simpl. rewrite map_app, app_nil_r. reflexivity.
+Qed.
+
+(* a non-empty table whose sizes fit always cuts; the digests are those of the table *)
+Lemma cut_total : forall l rest, (length (concat l) <= length rest)%nat ->
+  exists sl, cut (map sub_of l) rest = Some sl /\ map snd sl = map dg l.
+Proof.
+  induction l as [|a l IH]; intros rest H.
+  - exists []. split; reflexivity.
+  - destruct l as [|b l].
+    + exists [(rest, dg a)]. split; reflexivity.
+    + change (map sub_of (a :: b :: l)) with ((length a, dg a) :: map sub_of (b :: l)).
+      rewrite cut_cons by discriminate.
+      change (concat (a :: b :: l)) with (a ++ concat (b :: l)) in H. rewrite app_length in H.
+      assert (Hle : (length a <=? length rest)%nat = true) by (apply Nat.leb_le; lia).
+      rewrite Hle.
+      destruct (IH (skipn (length a) rest)) as [sl [Hc Hs]]; [rewrite skipn_length; lia|].
+      rewrite Hc. eexists. split; [reflexivity|]. simpl. rewrite Hs. reflexivity.
+Qed.
+
+Lemma assign_app : forall ms fi sl, no_crc ms ->
+  assign (info ms ++ fi) (map slice_of (datas ms) ++ sl) = option_map (app ms) (assign fi sl).
+Proof.
+  induction ms as [|[n r] ms IH]; intros fi sl Hn.
+  - simpl. destruct (assign fi sl); reflexivity.
+  - assert (Hn' : no_crc ms) by (intros m Hm; apply Hn; right; exact Hm).
+    destruct r as [|bs|].
+    + change (assign (info ((n, MDir) :: ms) ++ fi) (map slice_of (datas ((n, MDir) :: ms)) ++ sl))
+        with (option_map (cons (n, MDir)) (assign (info ms ++ fi) (map slice_of (datas ms) ++ sl))).
+      rewrite (IH fi sl Hn'). destruct (assign fi sl); reflexivity.
+    + change (assign (info ((n, MData bs) :: ms) ++ fi) (map slice_of (datas ((n, MData bs) :: ms)) ++ sl))
+        with (option_map (cons (n, if deq (dg bs) (dg bs) then MData bs else MCrc))
+                         (assign (info ms ++ fi) (map slice_of (datas ms) ++ sl))).
+      rewrite (IH fi sl Hn'), deq_refl. destruct (assign fi sl); reflexivity.
+    + exfalso. apply (Hn (n, MCrc)); [left; reflexivity | reflexivity].
+Qed.
+
+Lemma assign_full : forall ms, no_crc ms -> assign (info ms) (map slice_of (datas ms)) = Some ms.
+Proof.
+  intros ms Hn. pose proof (assign_app ms [] [] Hn) as H. rewrite !app_nil_r in H. rewrite H.
+  simpl. rewrite app_nil_r. reflexivity.
+Qed.
+
+Lemma assign_total : forall ms (sl : list (bytes * D)), no_crc ms -> length sl = length (datas ms) ->
+  exists tail, assign (info ms) sl = Some tail /\ map fst tail = map fst ms.
+Proof.
+  induction ms as [|[n r] ms IH]; intros sl Hnc H.
+  - destruct sl; [|discriminate]. exists []. split; reflexivity.
+  - assert (Hnc' : no_crc ms) by (intros m Hm; apply Hnc; right; exact Hm).
+    specialize (IH sl Hnc') as IH0. clear IH0.
+    destruct r as [|bs|].
+    + destruct (IH sl Hnc' H) as [t [Ht Hn]]. exists ((n, MDir) :: t). split.
+      * change (assign (info ((n, MDir) :: ms)) sl) with (option_map (cons (n, MDir)) (assign (info ms) sl)).
+        rewrite Ht. reflexivity.
+      * simpl. rewrite Hn. reflexivity.
+    + destruct sl as [|[b c] sl]; [discriminate|]. simpl in H. injection H as H.
+      destruct (IH sl Hnc' H) as [t [Ht Hn]]. eexists. split.
+      * change (assign (info ((n, MData bs) :: ms)) ((b, c) :: sl))
+          with (option_map (cons (n, if deq (dg b) c then MData b else MCrc)) (assign (info ms) sl)).
+        rewrite Ht. reflexivity.
+      * simpl. rewrite Hn. reflexivity.
+    + exfalso. apply (Hnc (n, MCrc)); [left; reflexivity | reflexivity].
 Qed.
 
 (* ------------------------------------------------------------------ *)
-(** * Histories whose faults are all detected before registration       *)
+(** * One call, with the worker in step (ws_pend = [])                  *)
 (* ------------------------------------------------------------------ *)
-
-Record synced (st : wstate) (ms : list (Z * mres)) (seen : bool) : Prop := {
-  sy_pend : ws_pend st = [];
-  sy_done : map (fun p => full_member (fst p)) (ws_done st) = ms;
-  sy_subs : ws_subs st = map sub_of (datas ms);
-  sy_stream : ws_stream st = concat (datas ms);
-  sy_init : ws_init st = false -> ms = [];
-  sy_seen : existsb is_kdata (map fst (ws_done st)) = seen
-}.
-
-Lemma full_member_no_crc : forall (l : list (wfile * nat)),
-  no_crc (map (fun p => full_member (fst p)) l).
-Proof.
-  intros l m Hm. apply in_map_iff in Hm. destruct Hm as [p [<- _]].
-  unfold full_member. simpl. destruct (is_dir (fst p)); discriminate.
-Qed.
-
-Lemma info_full : forall (l : list (wfile * nat)),
-  info (map (fun p => full_member (fst p)) l) = map (fun f => (w_name f, is_dir f)) (map fst l).
-Proof.
-  induction l as [|p l IH]; [reflexivity|].
-  simpl. rewrite <- IH. unfold full_member at 1 2. simpl. destruct (is_dir (fst p)); reflexivity.
-Qed.
-
-Lemma readable_synced : forall st ms seen, synced st ms seen -> abs st = Some ms.
-Proof.
-  intros st ms seen H. destruct H as [Hp Hd Hs Hst Hi _].
-  unfold WSession.abs, WSession.readable, wclose, ws_files. simpl.
-  rewrite Hp, app_nil_r.
-  destruct (ws_init st) eqn:Ei.
-  - rewrite Hs, Hst, cut_concat. rewrite <- Hd at 1. rewrite <- info_full, Hd.
-    apply assign_full. rewrite <- Hd. apply full_member_no_crc.
-  - rewrite (Hi eq_refl) in *. destruct (ws_done st); [reflexivity | discriminate].
-Qed.
 
 Definition api_step (a : api) (st : wstate) (s : src) : wstate * wout :=
   match a with AWrite => call_write st s | _ => call_data a st s end.
@@ -116,354 +140,203 @@ Definition api_step (a : api) (st : wstate) (s : src) : wstate * wout :=
 Lemma wstep_call : forall st a s, wstep st (OCall a s) = api_step a st s.
 Proof. intros st [] s; reflexivity. Qed.
 
-Lemma datas_app : forall a b, datas (a ++ b) = datas a ++ datas b.
-Proof. intros. unfold datas. apply flat_map_app. Qed.
-
-Lemma file_of_src_nofault : forall a s, s_fault s = None -> w_fault (file_of_src a s) = None.
-Proof. intros [] s H; simpl; rewrite ?H; reflexivity. Qed.
+Definition sub_list (f : wfile) : list (nat * D) := if is_dir f then [] else [sub_of (w_data f)].
+Definition byte_list (f : wfile) : bytes := if is_dir f then [] else w_data f.
 
 Lemma file_of_src_pos : forall a s, w_pos (file_of_src a s) = O.
 Proof. intros [] s; reflexivity. Qed.
-
-Definition link_file (f : wfile) : bool := match w_kind f with KLink => true | _ => false end.
-
-(* the registration + archive step of a member without fault, with the worker in step *)
-Lemma archive_fresh : forall st ms seen f,
-  synced st ms seen -> w_fault f = None -> w_pos f = O -> seen && link_file f = false ->
-  exists st', archive (register (set_init st) f) = (st', Returned) /\
-              synced st' (ms ++ [full_member f]) (seen || is_kdata f).
-Proof.
-  intros st ms seen f [Hp Hd Hs Hst Hi Hsn] Hf Hpos Hl.
-  unfold WSession.archive, register, set_init. simpl. rewrite Hp. simpl.
-  destruct (is_dir f) eqn:Edir.
-  - eexists; split; [reflexivity|].
-    constructor; simpl.
-    + reflexivity.
-    + rewrite map_app, Hd. reflexivity.
-    + rewrite datas_app. unfold full_member. rewrite Edir. simpl. rewrite app_nil_r. exact Hs.
-    + rewrite datas_app. unfold full_member. rewrite Edir. simpl. rewrite app_nil_r. exact Hst.
-    + discriminate.
-    + rewrite map_app, existsb_app, Hsn. simpl. rewrite orb_false_r. reflexivity.
-  - assert (Hany : existsb is_kdata (ws_files (mkState D true (ws_done st) [f] (ws_last st) (ws_subs st)
-                                                  (ws_stream st) (ws_garb st))) = seen || is_kdata f).
-    { unfold ws_files. simpl. rewrite existsb_app, Hsn. simpl. rewrite orb_false_r. reflexivity. }
-    rewrite Hany.
-    assert (Hrd : exists f', read_src (seen || is_kdata f) f = RdOk (w_data f) O f' /\
-                             full_member f' = full_member f /\ is_kdata f' = is_kdata f).
-    { unfold read_src. rewrite Hf, Hpos. unfold is_dir in Edir. unfold link_file in Hl.
-      destruct (w_kind f) eqn:Ek; try discriminate.
-      - exists f. repeat split; reflexivity.
-      - rewrite andb_true_r in Hl. rewrite Hl.
-        replace (false || is_kdata f) with false by (unfold is_kdata; rewrite Ek; reflexivity).
-        exists f. repeat split; reflexivity.
-      - simpl. exists (set_pos f (length (w_data f))). split; [reflexivity|].
-        unfold full_member, is_dir, is_kdata, set_pos. simpl. rewrite Ek. split; reflexivity. }
-    destruct Hrd as [f' [Hrd [Hfm Hkd]]]. rewrite Hrd.
-    eexists; split; [reflexivity|].
-    assert (Hm : full_member f = (w_name f, MData (w_data f))) by (unfold full_member; rewrite Edir; reflexivity).
-    constructor; simpl.
-    + reflexivity.
-    + rewrite map_app, Hd. simpl. rewrite Hfm. reflexivity.
-    + rewrite datas_app, map_app, Hs, Hm. reflexivity.
-    + rewrite datas_app, concat_app, Hst, Hm. simpl. rewrite app_nil_r. reflexivity.
-    + discriminate.
-    + rewrite map_app, existsb_app, Hsn. simpl. rewrite Hkd, orb_false_r. reflexivity.
-Qed.
-
-Lemma synced_set_init : forall st ms seen, synced st ms seen -> synced (set_init st) ms seen.
-Proof. intros st ms seen [Hp Hd Hs Hst Hi Hsn]. constructor; simpl; auto. discriminate. Qed.
-
-Lemma pre_only_src_cases : forall s, pre_only_src s = true ->
-  s_fault s = None \/ (has_fault s = true /\ (fault_kind s = Some FStat \/ fault_kind s = Some FName)).
-Proof.
-  intros s H. unfold pre_only_src, fault_kind, has_fault in *.
-  destruct (s_fault s) as [[k b]|]; [right | left; reflexivity].
-  simpl in *. destruct k; try discriminate; auto.
-Qed.
-
-Lemma kdata_file_of_src : forall a s,
-  is_kdata (file_of_src a s) = match a with AWrite => false | _ => true end.
-Proof. intros [] s; simpl; try reflexivity. unfold is_kdata. simpl. destruct (s_kind s); reflexivity. Qed.
-
-Lemma link_file_of_src : forall a s,
-  link_file (file_of_src a s) = match a with AWrite => is_link_src s | _ => false end.
-Proof. intros [] s; simpl; try reflexivity. unfold link_file, is_link_src. simpl. destruct (s_kind s); reflexivity. Qed.
-
-Lemma call_synced : forall st ms seen a s,
-  synced st ms seen -> pre_only_src s = true -> op_links_ok seen (OCall a s) = true ->
-  exists st', api_step a st s = (st', expected_out (OCall a s)) /\
-              synced st' (ms ++ expected (OCall a s)) (seen || op_adds_data (OCall a s)).
-Proof.
-  intros st ms seen a s Hsy Hpre Hl.
-  destruct (pre_only_src_cases s Hpre) as [Hn | [Hf Hk]].
-  - assert (Hhf : has_fault s = false) by (unfold has_fault; rewrite Hn; reflexivity).
-    assert (Hfk : fault_kind s = None) by (unfold fault_kind; rewrite Hn; reflexivity).
-    destruct (archive_fresh st ms seen (file_of_src a s) Hsy (file_of_src_nofault a s Hn) (file_of_src_pos a s))
-      as [st' [Ha Hs']].
-    { rewrite link_file_of_src. destruct a; simpl in *; try apply andb_false_r.
-      apply negb_true_iff in Hl. exact Hl. }
-    exists st'. simpl. rewrite Hhf. split.
-    + destruct a; unfold api_step, WSession.call_write, WSession.call_data; rewrite Hfk; exact Ha.
-    + rewrite kdata_file_of_src in Hs'. destruct a; simpl; exact Hs'.
-  - simpl. rewrite Hf. simpl. rewrite app_nil_r.
-    assert (Hseen : seen || (match a with AWrite => false | _ => negb true end) = seen)
-      by (destruct a; simpl; apply orb_false_r).
-    destruct a; simpl; rewrite ?orb_false_r;
-      unfold api_step, WSession.call_write, WSession.call_data; destruct Hk as [-> | ->];
-      eexists; (split; [reflexivity|]); try exact Hsy; apply synced_set_init; exact Hsy.
-Qed.
-
-Lemma loop_synced : forall l st ms seen,
-  synced st ms seen -> forallb pre_only_src l = true -> seen && existsb is_link_src l = false ->
-  exists st', writeall_loop st l = (st', if existsb has_fault l then Raised else Returned) /\
-              synced st' (ms ++ map (fun s => full_member (file_of_src AWrite s)) (ok_prefix l)) seen.
-Proof.
-  induction l as [|s l IH]; intros st ms seen Hsy Hpre Hl.
-  - exists st. simpl. rewrite app_nil_r. split; [reflexivity | exact Hsy].
-  - simpl in Hpre. apply andb_true_iff in Hpre. destruct Hpre as [Hps Hpl].
-    simpl in Hl.
-    assert (Hl1 : seen && is_link_src s = false) by (destruct seen, (is_link_src s); simpl in *; auto; discriminate).
-    assert (Hl2 : seen && existsb is_link_src l = false)
-      by (destruct seen, (is_link_src s), (existsb is_link_src l); simpl in *; auto; discriminate).
-    destruct (call_synced st ms seen AWrite s Hsy Hps) as [st1 [H1 S1]].
-    { simpl. rewrite Hl1. reflexivity. }
-    simpl in H1, S1. rewrite orb_false_r in S1.
-    destruct (pre_only_src_cases s Hps) as [Hn | [Hf Hk]].
-    + assert (Hhf : has_fault s = false) by (unfold has_fault; rewrite Hn; reflexivity).
-      assert (Hfk : fault_kind s = None) by (unfold fault_kind; rewrite Hn; reflexivity).
-      rewrite Hhf in *. simpl. rewrite Hhf. simpl.
-      unfold WSession.elem_writeall. rewrite Hfk. rewrite H1.
-      destruct (IH st1 _ seen S1 Hpl Hl2) as [st' [H2 S2]].
-      exists st'. split; [exact H2|]. rewrite <- app_assoc in S2. exact S2.
-    + rewrite Hf in *. simpl. rewrite Hf. simpl. rewrite app_nil_r in *.
-      unfold WSession.elem_writeall. destruct Hk as [Hk | Hk]; rewrite Hk.
-      * exists st. split; [reflexivity | exact Hsy].
-      * rewrite H1. exists st1. split; [reflexivity | exact S1].
-Qed.
-
-Lemma wstep_synced : forall st ms seen op,
-  synced st ms seen -> pre_only op = true -> op_links_ok seen op = true ->
-  exists st', wstep st op = (st', expected_out op) /\
-              synced st' (ms ++ expected op) (seen || op_adds_data op).
-Proof.
-  intros st ms seen [a s | rm l] Hsy Hpre Hl.
-  - rewrite wstep_call. apply call_synced; assumption.
-  - simpl in *. rewrite orb_false_r. destruct rm.
-    + exists st. rewrite app_nil_r. split; [reflexivity | exact Hsy].
-    + apply loop_synced; try assumption. apply negb_true_iff in Hl. exact Hl.
-Qed.
-
-Lemma run_synced : forall ops st ms seen,
-  synced st ms seen -> forallb pre_only ops = true -> links_ok seen ops = true ->
-  exists st' seen', run st ops = (st', map expected_out ops) /\
-                    synced st' (ms ++ flat_map expected ops) seen'.
-Proof.
-  induction ops as [|op ops IH]; intros st ms seen Hsy Hpre Hl.
-  - exists st, seen. simpl. rewrite app_nil_r. split; [reflexivity | exact Hsy].
-  - simpl in Hpre, Hl. apply andb_true_iff in Hpre. destruct Hpre as [Hp1 Hp2].
-    apply andb_true_iff in Hl. destruct Hl as [Hl1 Hl2].
-    destruct (wstep_synced st ms seen op Hsy Hp1 Hl1) as [st1 [H1 S1]].
-    destruct (IH st1 _ _ S1 Hp2 Hl2) as [st' [seen' [H2 S2]]].
-    exists st', seen'. simpl. rewrite H1, H2. split; [reflexivity|].
-    rewrite <- app_assoc in S2. exact S2.
-Qed.
-
-Lemma synced_st0 : synced st0 [] false.
-Proof. constructor; reflexivity. Qed.
-
-(* members written before and after a call that failed before registration are all present and
-   intact, the failed call's source is absent, every failure reached the caller *)
-Theorem later_writes_intact_partial : forall ops,
-  forallb pre_only ops = true -> links_ok false ops = true ->
-  exists st, run st0 ops = (st, map expected_out ops) /\ abs st = Some (flat_map expected ops).
-Proof.
-  intros ops Hp Hl.
-  destruct (run_synced ops st0 [] false synced_st0 Hp Hl) as [st [seen [H S]]].
-  exists st. split; [exact H|]. simpl in S. exact (readable_synced _ _ _ S).
-Qed.
-
-(* every member of the archive comes from a source without fault: nothing of a failed source enters *)
-Lemma expected_sources : forall op m, In m (expected op) ->
-  exists a s, In (a, s) (op_srcs op) /\ has_fault s = false /\ m = full_member (file_of_src a s).
-Proof.
-  intros [a s | rm l] m H; simpl in *.
-  - destruct (has_fault s) eqn:E; [contradiction|].
-    destruct H as [<- | []]. exists a, s. auto.
-  - destruct rm; [contradiction|].
-    apply in_map_iff in H. destruct H as [s [<- Hs]].
-    exists AWrite, s. split; [|split; [|reflexivity]].
-    + apply in_map_iff. exists s. split; [reflexivity|].
-      clear -Hs. induction l as [|x l IH]; simpl in *; [contradiction|].
-      destruct (has_fault x); [contradiction|]. destruct Hs as [-> | Hs]; auto.
-    + clear -Hs. induction l as [|x l IH]; simpl in *; [contradiction|].
-      destruct (has_fault x) eqn:E; [contradiction|]. destruct Hs as [<- | Hs]; auto.
-Qed.
-
-Theorem no_retry_partial : forall ops,
-  forallb pre_only ops = true -> links_ok false ops = true ->
-  exists st outs ms, run st0 ops = (st, outs) /\ abs st = Some ms /\
-    forall m, In m ms -> exists a s, In (a, s) (flat_map op_srcs ops) /\ has_fault s = false /\
-                                     m = full_member (file_of_src a s).
-Proof.
-  intros ops Hp Hl. destruct (later_writes_intact_partial ops Hp Hl) as [st [H A]].
-  exists st, (map expected_out ops), (flat_map expected ops). split; [exact H | split; [exact A|]].
-  intros m Hm. apply in_flat_map in Hm. destruct Hm as [op [Hop Hm]].
-  destruct (expected_sources op m Hm) as [a [s [Hin [Hf Heq]]]].
-  exists a, s. split; [|auto]. apply in_flat_map. exists op. auto.
-Qed.
-
-(* ------------------------------------------------------------------ *)
-(** * The general invariant (any faults)                                *)
-(* ------------------------------------------------------------------ *)
-
-Definition rec_bytes (p : wfile * nat) : bytes := skipn (snd p) (w_data (fst p)).
-Definition recs_of (done : list (wfile * nat)) : list bytes :=
-  flat_map (fun p => if is_dir (fst p) then [] else [rec_bytes p]) done.
-Fixpoint sum_sizes (l : list (nat * D)) : nat :=
-  match l with [] => O | p :: r => (fst p + sum_sizes r)%nat end.
-
-Record inv (st : wstate) : Prop := {
-  iv_subs : ws_subs st = map sub_of (recs_of (ws_done st));
-  iv_len : length (ws_stream st) = (sum_sizes (ws_subs st) + ws_garb st)%nat;
-  iv_skip : Forall (fun p => (snd p <= ws_garb st)%nat) (ws_done st);
-  iv_pos : Forall (fun f => (w_pos f <= ws_garb st)%nat) (ws_pend st);
-  iv_init : ws_init st = false -> ws_done st = [] /\ ws_pend st = []
-}.
-
-Lemma inv_st0 : inv st0.
-Proof. constructor; simpl; auto. Qed.
-
-Lemma sum_sizes_app : forall a b, sum_sizes (a ++ b) = (sum_sizes a + sum_sizes b)%nat.
-Proof. induction a as [|x a IH]; intros b; simpl; [reflexivity|]. rewrite IH. lia. Qed.
-
-Lemma recs_of_app : forall a b, recs_of (a ++ b) = recs_of a ++ recs_of b.
-Proof. intros. unfold recs_of. apply flat_map_app. Qed.
 
 Lemma disarm_same : forall f, w_name (disarm f) = w_name f /\ w_kind (disarm f) = w_kind f /\
   w_data (disarm f) = w_data f /\ w_pos (disarm f) = w_pos f.
 Proof. intros f. unfold disarm. destruct (w_fault f) as [[k []]|]; simpl; auto. Qed.
 
-Lemma read_src_ok : forall b f bs sk f', is_dir f = false -> read_src b f = RdOk bs sk f' ->
-  bs = skipn sk (w_data f') /\ (sk <= w_pos f)%nat /\ w_kind f' = w_kind f /\ w_name f' = w_name f /\ w_data f' = w_data f.
+(* reading the source of the member a call registers: fails iff the fault fires *)
+Lemma read_fresh : forall a s, let f := file_of_src a s in is_dir f = false ->
+  fault_kind s <> Some FStat -> fault_kind s <> Some FName ->
+  if fires a s
+  then exists c f', read_src f = RdFail c f' /\ (dirty a s = false -> c = [])
+  else exists f', read_src f = RdOk (w_data f) O f' /\ w_name f' = w_name f /\ w_kind f' = w_kind f /\
+                  w_data f' = w_data f.
 Proof.
-  intros b f bs sk f' Hd H. unfold read_src in H. unfold is_dir in Hd.
-  destruct (w_kind f) eqn:Ek.
-  - destruct (w_fault f) as [[[| | |k] st]|]; try discriminate;
-      try (destruct (k <? length (w_data f))%nat; try discriminate);
-      inversion H; subst; simpl; repeat split; auto; lia.
+  intros a s f Hd Hns Hnn. subst f. unfold fault_kind in *. unfold dirty, fires.
+  destruct (s_fault s) as [[k b]|] eqn:Ef; [destruct k as [| | |n]|]; simpl in Hns, Hnn;
+    try (exfalso; apply Hns; reflexivity); try (exfalso; apply Hnn; reflexivity);
+    destruct a; unfold file_of_src, read_src, is_dir in *; simpl in *; rewrite ?Ef; simpl;
+    try (destruct (s_kind s) eqn:Ek; try discriminate; simpl);
+    rewrite ?andb_false_r, ?andb_true_r;
+    try (destruct (n <? length (s_data s))%nat eqn:El; simpl);
+    first [ solve [eexists; split; [reflexivity | repeat split; reflexivity]]
+          | solve [eexists; eexists; split; [reflexivity | intros H; reflexivity]]
+          | solve [eexists; eexists; split; [reflexivity | intros H; try reflexivity;
+                                             destruct n; [reflexivity | discriminate]]] ].
+Qed.
+
+Lemma fires_pre : forall a s, (fault_kind s = Some FStat \/ fault_kind s = Some FName) ->
+  fires a s = true /\ dirty a s = false.
+Proof.
+  intros a s H. unfold fault_kind, fires, dirty, fires in *.
+  destruct (s_fault s) as [[k b]|]; simpl in *; [|destruct H; discriminate].
+  destruct H as [H | H]; injection H as ->; split; reflexivity.
+Qed.
+
+Lemma fires_dir : forall a s, is_dir (file_of_src a s) = true ->
+  fires a s = match fault_kind s with Some FStat => true | Some FName => true | _ => false end.
+Proof.
+  intros a s H. unfold fires, fault_kind. destruct a; unfold is_dir in H; simpl in H; try discriminate.
+  destruct (s_kind s); try discriminate.
+  destruct (s_fault s) as [[[| | |k] b]|]; simpl; try reflexivity. apply andb_false_r.
+Qed.
+
+(* the state after a call that fails: nothing but the init flag and the compressor's input moved *)
+Definition fail_state (st : wstate) (i : bool) (c : bytes) : wstate :=
+  mkState D i (ws_done st) [] (ws_last st) (ws_subs st) (ws_stream st ++ c) (ws_garb st + length c).
+(* ... and after a call that returns *)
+Definition ok_state (st : wstate) (f' f : wfile) : wstate :=
+  mkState D true (ws_done st ++ [(f', O)]) []
+          (if is_dir f then ws_last st else Z.of_nat (length (ws_done st)))
+          (ws_subs st ++ sub_list f) (ws_stream st ++ byte_list f) (ws_garb st).
+
+Lemma reg_archive_spec : forall st a s, ws_pend st = [] -> ws_init st = true ->
+  fault_kind s <> Some FStat -> fault_kind s <> Some FName ->
+  let f := file_of_src a s in
+  if fires a s
+  then exists c, reg_archive st f = (fail_state st true c, Raised) /\ (dirty a s = false -> c = [])
+  else exists f', reg_archive st f = (ok_state st f' f, Returned) /\ w_name f' = w_name f /\
+                  w_kind f' = w_kind f /\ w_data f' = w_data f.
+Proof.
+  intros st a s Hp Hi Hns Hnn f.
+  unfold WSession.reg_archive, WSession.archive, register. simpl. rewrite Hp. simpl.
+  destruct (is_dir f) eqn:Ed.
+  - subst f. rewrite (fires_dir a s Ed).
+    destruct (fault_kind s) as [[| | |k]|]; try contradiction;
+      (exists (file_of_src a s); split; [|auto]);
+      unfold ok_state, sub_list, byte_list; rewrite Ed, !app_nil_r, Hi; reflexivity.
+  - pose proof (read_fresh a s Ed Hns Hnn) as Hr. fold f in Hr.
+    destruct (fires a s).
+    + destruct Hr as [c [f' [Hr Hc]]]. rewrite Hr. exists c. split; [|exact Hc].
+      unfold pop_pend, fail_state. simpl. rewrite Hi. reflexivity.
+    + destruct Hr as [f' [Hr [H1 [H2 H3]]]]. rewrite Hr. exists f'. split; [|auto].
+      unfold ok_state, sub_list, byte_list. rewrite Ed, Hi. reflexivity.
+Qed.
+
+Lemma api_step_spec : forall st a s, ws_pend st = [] ->
+  let f := file_of_src a s in
+  if fires a s
+  then exists i c, api_step a st s = (fail_state st i c, Raised) /\ (i = ws_init st \/ i = true) /\
+                   (dirty a s = false -> c = [])
+  else exists f', api_step a st s = (ok_state st f' f, Returned) /\ w_name f' = w_name f /\
+                  w_kind f' = w_kind f /\ w_data f' = w_data f.
+Proof.
+  intros st a s Hp f.
+  assert (Hst : forall i, fail_state st i [] = mkState D i (ws_done st) (ws_pend st) (ws_last st) (ws_subs st)
+                                                        (ws_stream st) (ws_garb st)).
+  { intros i. unfold fail_state. rewrite Hp, app_nil_r. simpl. rewrite Nat.add_0_r. reflexivity. }
+  assert (Hsame : fail_state st (ws_init st) [] = st) by (rewrite Hst; destruct st; reflexivity).
+  assert (Hset : fail_state st true [] = set_init st) by (rewrite Hst; reflexivity).
+  destruct (fault_kind s) as [k|] eqn:Ek.
+  - destruct k as [| | |n].
+    + destruct (fires_pre a s (or_introl Ek)) as [-> Hd].
+      destruct a; unfold api_step, WSession.call_write, WSession.call_data; rewrite Ek.
+      * exists true, []. rewrite Hset. auto.
+      * exists (ws_init st), []. rewrite Hsame. auto.
+      * exists (ws_init st), []. rewrite Hsame. auto.
+    + destruct (fires_pre a s (or_intror Ek)) as [-> Hd].
+      exists (ws_init st), []. rewrite Hsame.
+      destruct a; unfold api_step, WSession.call_write, WSession.call_data; rewrite Ek; auto.
+    + pose proof (reg_archive_spec (set_init st) a s Hp eq_refl) as H. fold f in H. rewrite Ek in H.
+      specialize (H ltac:(discriminate) ltac:(discriminate)).
+      assert (Hstep : api_step a st s = reg_archive (set_init st) f)
+        by (destruct a; unfold api_step, WSession.call_write, WSession.call_data; rewrite Ek; reflexivity).
+      rewrite Hstep. destruct (fires a s).
+      * destruct H as [c [H Hc]]. exists true, c. auto.
+      * exact H.
+    + pose proof (reg_archive_spec (set_init st) a s Hp eq_refl) as H. fold f in H. rewrite Ek in H.
+      specialize (H ltac:(discriminate) ltac:(discriminate)).
+      assert (Hstep : api_step a st s = reg_archive (set_init st) f)
+        by (destruct a; unfold api_step, WSession.call_write, WSession.call_data; rewrite Ek; reflexivity).
+      rewrite Hstep. destruct (fires a s).
+      * destruct H as [c [H Hc]]. exists true, c. auto.
+      * exact H.
+  - pose proof (reg_archive_spec (set_init st) a s Hp eq_refl) as H. fold f in H. rewrite Ek in H.
+    specialize (H ltac:(discriminate) ltac:(discriminate)).
+    assert (Hstep : api_step a st s = reg_archive (set_init st) f)
+      by (destruct a; unfold api_step, WSession.call_write, WSession.call_data; rewrite Ek; reflexivity).
+    rewrite Hstep. destruct (fires a s).
+    + destruct H as [c [H Hc]]. exists true, c. auto.
+    + exact H.
+Qed.
+
+(* one member visited by _writeall *)
+Lemma elem_spec : forall st s, ws_pend st = [] ->
+  let f := file_of_src AWrite s in
+  if fires AWrite s
+  then exists i c, elem_writeall st s = (fail_state st i c, Raised) /\ (i = ws_init st \/ i = true) /\
+                   (dirty AWrite s = false -> c = [])
+  else exists f', elem_writeall st s = (ok_state st f' f, Returned) /\ w_name f' = w_name f /\
+                  w_kind f' = w_kind f /\ w_data f' = w_data f.
+Proof.
+  intros st s Hp f. unfold WSession.elem_writeall.
+  destruct (fault_kind s) as [[| | |n]|] eqn:Ek; try exact (api_step_spec st AWrite s Hp).
+  destruct (fires_pre AWrite s (or_introl Ek)) as [-> Hd].
+  exists (ws_init st), []. split; [|auto].
+  unfold fail_state. rewrite app_nil_r, Nat.add_0_r, <- Hp. destruct st; reflexivity.
+Qed.
+
+(* ------------------------------------------------------------------ *)
+(** * The invariant of every reachable state                            *)
+(* ------------------------------------------------------------------ *)
+
+Definition fulldatas (l : list wfile) : list bytes := flat_map (fun f => if is_dir f then [] else [w_data f]) l.
+
+Record inv (st : wstate) : Prop := {
+  iv_pend : ws_pend st = [];                                   (* the worker is in step *)
+  iv_skip : Forall (fun p => snd p = O) (ws_done st);          (* every source was read from its start *)
+  iv_subs : ws_subs st = map sub_of (fulldatas (map fst (ws_done st)));
+  iv_init : ws_init st = false -> ws_done st = []
+}.
+
+Lemma inv_st0 : inv st0.
+Proof. constructor; simpl; auto. Qed.
+
+Lemma fulldatas_app : forall a b, fulldatas (a ++ b) = fulldatas a ++ fulldatas b.
+Proof. intros. unfold fulldatas. apply flat_map_app. Qed.
+
+Lemma inv_fail : forall st i c, inv st -> (i = ws_init st \/ i = true) -> inv (fail_state st i c).
+Proof.
+  intros st i c [H1 H2 H3 H4] Hi. constructor; simpl; auto.
+  destruct Hi as [-> | ->]; [exact H4 | discriminate].
+Qed.
+
+Lemma inv_ok : forall st f' f, inv st -> w_kind f' = w_kind f -> w_data f' = w_data f -> inv (ok_state st f' f).
+Proof.
+  intros st f' f [H1 H2 H3 H4] Hk Hd. constructor; simpl; auto.
+  - apply Forall_app. split; [exact H2 | constructor; [reflexivity | constructor]].
+  - rewrite map_app, fulldatas_app, map_app, <- H3. simpl. unfold sub_list, is_dir. rewrite Hk, Hd.
+    destruct (w_kind f); simpl; rewrite ?app_nil_r; reflexivity.
   - discriminate.
-  - destruct (w_fault f) as [[[| | |k] st]|]; try discriminate;
-      destruct b; try discriminate; inversion H; subst; simpl; repeat split; auto; lia.
-  - destruct (w_fault f) as [[[| | |k] st]|];
-      try (destruct (k <? length (w_data f))%nat; try discriminate);
-      inversion H; subst; simpl; repeat split; auto.
 Qed.
 
-Lemma read_src_fail : forall b f c f', read_src b f = RdFail c f' -> (w_pos f' <= w_pos f + length c)%nat.
+Lemma inv_api_step : forall st a s st' o, inv st -> api_step a st s = (st', o) -> inv st'.
 Proof.
-  intros b f c f' H. unfold read_src in H.
-  destruct (w_kind f) eqn:Ek.
-  - destruct (w_fault f) as [[[| | |k] st]|]; try discriminate;
-      try (destruct (k <? length (w_data f))%nat; try discriminate);
-      inversion H; subst; destruct (disarm_same f) as [_ [_ [_ ->]]]; lia.
-  - discriminate.
-  - destruct (w_fault f) as [[[| | |k] st]|]; try discriminate;
-      try (destruct b; try discriminate);
-      inversion H; subst; try (destruct (disarm_same f) as [_ [_ [_ ->]]]); lia.
-  - destruct (w_fault f) as [[[| | |k] st]|]; try discriminate.
-    destruct (k <? length (w_data f))%nat eqn:Ekl; try discriminate.
-    inversion H; subst. apply Nat.ltb_lt in Ekl.
-    destruct (disarm_same (set_pos f (Nat.max (w_pos f) k))) as [_ [_ [_ ->]]]. simpl.
-    rewrite firstn_length, skipn_length. lia.
-Qed.
-
-Lemma Forall_le_weaken : forall {A} (g : A -> nat) l n m, (n <= m)%nat ->
-  Forall (fun x => (g x <= n)%nat) l -> Forall (fun x => (g x <= m)%nat) l.
-Proof. intros A g l n m Hnm H. eapply Forall_impl; [|exact H]. simpl. intros; lia. Qed.
-
-Lemma inv_set_init : forall st, inv st -> inv (set_init st).
-Proof. intros st [H1 H2 H3 H4 H5]. constructor; simpl; auto. discriminate. Qed.
-
-Lemma inv_register : forall st f, inv st -> ws_init st = true -> w_pos f = O -> inv (register st f).
-Proof.
-  intros st f [H1 H2 H3 H4 H5] Hi Hp. constructor; simpl; auto.
-  - apply Forall_app. split; [exact H4|]. constructor; [lia | constructor].
-  - rewrite Hi. discriminate.
-Qed.
-
-Lemma inv_archive : forall st st' o, inv st -> ws_init st = true -> archive st = (st', o) ->
-  inv st' /\ ws_init st' = true.
-Proof.
-  intros st st' o [H1 H2 H3 H4 H5] Hi Ha. unfold WSession.archive in Ha.
-  destruct (ws_pend st) as [|f p] eqn:Ep.
-  - inversion Ha; subst. split; [constructor; auto; rewrite Ep; auto | exact Hi].
-  - inversion H4 as [|? ? Hf Hp']; subst.
-    destruct (is_dir f) eqn:Ed.
-    + inversion Ha; subst. split; [|exact Hi]. constructor; simpl; auto.
-      * rewrite recs_of_app. simpl. rewrite Ed. simpl. rewrite app_nil_r. exact H1.
-      * apply Forall_app. split; [exact H3|]. constructor; [simpl; lia | constructor].
-      * rewrite Hi. discriminate.
-    + destruct (read_src _ f) as [bs sk f' | c f'] eqn:Er.
-      * inversion Ha; subst. split; [|exact Hi].
-        destruct (read_src_ok _ _ _ _ _ Ed Er) as [Hbs [Hsk [Hk [_ _]]]].
-        assert (Ed' : is_dir f' = false) by (unfold is_dir in *; rewrite Hk; exact Ed).
-        constructor; simpl; auto.
-        -- rewrite recs_of_app, map_app, <- H1. simpl. rewrite Ed'. simpl.
-           unfold rec_bytes. simpl. rewrite <- Hbs. reflexivity.
-        -- rewrite app_length, sum_sizes_app, H2. simpl. lia.
-        -- apply Forall_app. split; [exact H3|]. constructor; [simpl; lia | constructor].
-        -- rewrite Hi. discriminate.
-      * inversion Ha; subst. split; [|exact Hi].
-        pose proof (read_src_fail _ _ _ _ Er) as Hpos.
-        constructor; simpl; auto.
-        -- rewrite app_length, H2. lia.
-        -- eapply Forall_le_weaken; [|exact H3]. lia.
-        -- constructor; [lia|]. eapply Forall_le_weaken; [|exact Hp']. lia.
-        -- rewrite Hi. discriminate.
-Qed.
-
-Lemma inv_reg_archive : forall st f st' o, inv st -> w_pos f = O ->
-  archive (register (set_init st) f) = (st', o) -> inv st' /\ ws_init st' = true.
-Proof.
-  intros st f st' o Hi Hp Ha.
-  eapply inv_archive; [| |exact Ha].
-  - apply inv_register; [apply inv_set_init; exact Hi | reflexivity | exact Hp].
-  - reflexivity.
-Qed.
-
-Lemma inv_call_write : forall st s st' o, inv st -> call_write st s = (st', o) -> inv st'.
-Proof.
-  intros st s st' o Hi H. unfold WSession.call_write in H.
-  destruct (fault_kind s) as [[| | |k]|];
-    try (inversion H; subst; auto using inv_set_init; fail);
-    eapply inv_reg_archive in H; try exact Hi; try reflexivity; tauto.
-Qed.
-
-Lemma inv_call_data : forall a st s st' o, inv st -> call_data a st s = (st', o) -> inv st'.
-Proof.
-  intros a st s st' o Hi H. unfold WSession.call_data in H.
-  destruct (fault_kind s) as [[| | |k]|];
-    try (inversion H; subst; auto; fail);
-    eapply inv_reg_archive in H; try exact Hi; try apply file_of_src_pos; tauto.
+  intros st a s st' o Hi H. pose proof (api_step_spec st a s (iv_pend st Hi)) as Hs. simpl in Hs.
+  destruct (fires a s).
+  - destruct Hs as [i [c [E [Hii _]]]]. rewrite E in H. inversion H; subst. apply inv_fail; assumption.
+  - destruct Hs as [f' [E [_ [Hk Hd]]]]. rewrite E in H. inversion H; subst. apply inv_ok; assumption.
 Qed.
 
 Lemma inv_loop : forall l st st' o, inv st -> writeall_loop st l = (st', o) -> inv st'.
 Proof.
   induction l as [|s l IH]; intros st st' o Hi H; simpl in H.
   - inversion H; subst. exact Hi.
-  - destruct (elem_writeall st s) as [st1 o1] eqn:E1.
-    assert (Hi1 : inv st1).
-    { unfold WSession.elem_writeall in E1. destruct (fault_kind s) as [[| | |k]|];
-        try (eapply inv_call_write; [exact Hi | exact E1]).
-      inversion E1; subst. exact Hi. }
-    destruct o1; [eapply IH; eauto | inversion H; subst; exact Hi1].
+  - pose proof (elem_spec st s (iv_pend st Hi)) as Hs. simpl in Hs. destruct (fires AWrite s).
+    + destruct Hs as [i [c [E [Hii _]]]]. rewrite E in H. inversion H; subst. apply inv_fail; assumption.
+    + destruct Hs as [f' [E [_ [Hk Hd]]]]. rewrite E in H. eapply IH; [|exact H]. apply inv_ok; assumption.
 Qed.
 
 Lemma inv_wstep : forall st op st' o, inv st -> wstep st op = (st', o) -> inv st'.
 Proof.
   intros st [a s | rm l] st' o Hi H.
-  - rewrite wstep_call in H. destruct a; simpl in H;
-      [eapply inv_call_write | eapply inv_call_data | eapply inv_call_data]; eauto.
+  - rewrite wstep_call in H. eapply inv_api_step; eauto.
   - simpl in H. destruct rm; [inversion H; subst; exact Hi | eapply inv_loop; eauto].
 Qed.
 
@@ -480,62 +353,388 @@ Definition reachable (st : wstate) : Prop := exists ops outs, run st0 ops = (st,
 Lemma reachable_inv : forall st, reachable st -> inv st.
 Proof. intros st [ops [outs H]]. eapply inv_run; [apply inv_st0 | exact H]. Qed.
 
+(* the worker never lags behind: no call works on an earlier call's member *)
+Theorem worker_in_step : forall st, reachable st -> ws_pend st = [] /\ ws_cur st = length (ws_files st).
+Proof.
+  intros st H. pose proof (iv_pend st (reachable_inv st H)) as Hp. split; [exact Hp|].
+  unfold ws_cur, ws_files. rewrite Hp, app_nil_r, map_length. reflexivity.
+Qed.
+
 (* ------------------------------------------------------------------ *)
-(** * A call that fails before registration has no effect               *)
+(** * A failed call has no effect                                       *)
 (* ------------------------------------------------------------------ *)
 
 Lemma abs_set_init : forall st, inv st -> abs (set_init st) = abs st.
 Proof.
   intros st Hi. unfold WSession.abs, WSession.readable, wclose, ws_files. simpl.
   destruct (ws_init st) eqn:Ei; [reflexivity|].
-  destruct (iv_init st Hi Ei) as [Hd Hp]. rewrite (iv_subs st Hi), Hd, Hp. reflexivity.
+  rewrite (iv_subs st Hi), (iv_init st Hi Ei), (iv_pend st Hi). reflexivity.
 Qed.
 
-Theorem failed_call_no_effect_pre : forall st a s k,
-  inv st -> s_fault s = Some k -> pre_fault (f_kind k) = true ->
-  exists st', wstep st (OCall a s) = (st', Raised) /\ abs st' = abs st /\ (st' = st \/ st' = set_init st).
+Lemma fail_state_nil : forall st i, ws_pend st = [] -> (i = ws_init st \/ i = true) ->
+  fail_state st i [] = st \/ fail_state st i [] = set_init st.
 Proof.
-  intros st a s [k b] Hi Hs Hk. simpl in Hk.
-  assert (Hfk : fault_kind s = Some k) by (unfold fault_kind; rewrite Hs; reflexivity).
-  rewrite wstep_call.
-  destruct a; unfold api_step, WSession.call_write, WSession.call_data; rewrite Hfk;
-    destruct k; try discriminate;
-    eexists; (split; [reflexivity|]); (split; [|auto]); try reflexivity; apply abs_set_init; exact Hi.
+  intros st i Hp Hi. unfold fail_state. rewrite app_nil_r, Nat.add_0_r, <- Hp.
+  destruct Hi as [-> | ->]; [left; destruct st; reflexivity | right; reflexivity].
 Qed.
 
-Theorem failed_call_no_effect_pre_reach : forall st a s k,
-  reachable st -> s_fault s = Some k -> pre_fault (f_kind k) = true ->
-  exists st', wstep st (OCall a s) = (st', Raised) /\ abs st' = abs st /\ (st' = st \/ st' = set_init st).
-Proof. intros st a s k Hr. apply failed_call_no_effect_pre. apply reachable_inv. exact Hr. Qed.
+(* any entry point, any fault that fires except read() raising after k > 0 bytes: the exception
+   reaches the caller, the state is the one before the call (write() may have run
+   header.initialize()), a reader of the closed archive sees no difference *)
+Theorem failed_call_no_effect : forall st a s,
+  reachable st -> fires a s = true -> dirty a s = false ->
+  exists st', wstep st (OCall a s) = (st', Raised) /\ (st' = st \/ st' = set_init st) /\ abs st' = abs st.
+Proof.
+  intros st a s Hr Hf Hd. pose proof (reachable_inv st Hr) as Hi.
+  pose proof (api_step_spec st a s (iv_pend st Hi)) as Hs. simpl in Hs. rewrite Hf in Hs.
+  destruct Hs as [i [c [E [Hii Hc]]]]. rewrite (Hc Hd) in E.
+  rewrite wstep_call. eexists. split; [exact E|].
+  destruct (fail_state_nil st i (iv_pend st Hi) Hii) as [-> | ->].
+  - auto.
+  - split; [auto | apply abs_set_init; exact Hi].
+Qed.
+
+(* read() raising after k > 0 bytes: the exception reaches the caller, no entry and no sub-stream
+   is left behind, but the bytes already fed to the compressor stay in the folder *)
+Theorem failed_read_effect : forall st a s,
+  reachable st -> fires a s = true ->
+  exists i c, wstep st (OCall a s) = (fail_state st i c, Raised) /\ (i = ws_init st \/ i = true) /\
+              (dirty a s = false -> c = []).
+Proof.
+  intros st a s Hr Hf. pose proof (api_step_spec st a s (iv_pend st (reachable_inv st Hr))) as Hs.
+  simpl in Hs. rewrite Hf in Hs. rewrite wstep_call. exact Hs.
+Qed.
 
 Theorem failed_writeall_root_no_effect : forall st l, wstep st (OWriteall true l) = (st, Raised).
 Proof. reflexivity. Qed.
 
 (* ------------------------------------------------------------------ *)
-(** * An archive that extracts without error has the right bytes        *)
+(** * Histories: members before and after a failed call                 *)
 (* ------------------------------------------------------------------ *)
 
-Fixpoint rebuild (files : list (Z * bool)) (bl : list bytes) : list (Z * mres) :=
-  match files with
-  | [] => []
-  | (n, true) :: r => (n, MDir) :: rebuild r bl
-  | (n, false) :: r => match bl with [] => [] | b :: bl' => (n, MData b) :: rebuild r bl' end
-  end.
-Definition count_data (files : list (Z * bool)) : nat := length (filter (fun x => negb (snd x)) files).
+(* the members ms1, then c stray bytes in the folder, then the members ms2 *)
+Record gsynced (st : wstate) (ms1 : list (Z * mres)) (c : bytes) (ms2 : list (Z * mres)) : Prop := {
+  gs_pend : ws_pend st = [];
+  gs_done : map (fun p => full_member (fst p)) (ws_done st) = ms1 ++ ms2;
+  gs_subs : ws_subs st = map sub_of (datas ms1 ++ datas ms2);
+  gs_stream : ws_stream st = concat (datas ms1) ++ c ++ concat (datas ms2);
+  gs_init : ws_init st = false -> ms1 ++ ms2 = []
+}.
 
-Lemma cut_props : forall (subs : list (nat * D)) stream sl, cut subs stream = Some sl ->
-  map snd sl = map snd subs /\ (subs <> [] -> concat (map fst sl) = stream).
+Lemma datas_app : forall a b, datas (a ++ b) = datas a ++ datas b.
+Proof. intros. unfold datas. apply flat_map_app. Qed.
+
+Lemma full_member_no_crc : forall (l : list (wfile * nat)), no_crc (map (fun p => full_member (fst p)) l).
+Proof.
+  intros l m Hm. apply in_map_iff in Hm. destruct Hm as [p [<- _]].
+  unfold full_member. simpl. destruct (is_dir (fst p)); discriminate.
+Qed.
+
+Lemma info_full : forall (l : list (wfile * nat)),
+  info (map (fun p => full_member (fst p)) l) = map (fun f => (w_name f, is_dir f)) (map fst l).
+Proof.
+  induction l as [|p l IH]; [reflexivity|].
+  simpl. rewrite <- IH. unfold full_member at 1 2. simpl. destruct (is_dir (fst p)); reflexivity.
+Qed.
+
+Lemma gsynced_files : forall st ms1 c ms2, gsynced st ms1 c ms2 ->
+  map (fun f => (w_name f, is_dir f)) (ws_files st) = info (ms1 ++ ms2) /\ no_crc (ms1 ++ ms2).
+Proof.
+  intros st ms1 c ms2 [Hp Hd _ _ _]. unfold ws_files. rewrite Hp, app_nil_r, <- info_full, Hd.
+  split; [reflexivity|]. rewrite <- Hd. apply full_member_no_crc.
+Qed.
+
+Lemma readable_clean : forall st ms, gsynced st [] [] ms -> abs st = Some ms.
+Proof.
+  intros st ms H. destruct (gsynced_files _ _ _ _ H) as [Hf Hn]. destruct H as [Hp Hd Hs Hst Hi].
+  simpl in *. unfold WSession.abs, WSession.readable, wclose. simpl. rewrite Hf.
+  destruct (ws_init st) eqn:Ei.
+  - rewrite Hs, Hst, cut_concat. apply assign_full. exact Hn.
+  - rewrite (Hi eq_refl). reflexivity.
+Qed.
+
+Lemma info_app : forall a b, info (a ++ b) = info a ++ info b.
+Proof. intros. unfold info. apply map_app. Qed.
+
+Lemma no_crc_app_l : forall a b, no_crc (a ++ b) -> no_crc a.
+Proof. intros a b H m Hm. apply H. apply in_or_app. left. exact Hm. Qed.
+
+(* members written before a failed call are intact as soon as a member with data is written after it *)
+Lemma readable_before : forall st ms1 c ms2, gsynced st ms1 c ms2 -> datas ms2 <> [] ->
+  exists tail, abs st = Some (ms1 ++ tail) /\ map fst tail = map fst ms2.
+Proof.
+  intros st ms1 c ms2 H Hne. destruct (gsynced_files _ _ _ _ H) as [Hf Hn]. destruct H as [Hp Hd Hs Hst Hi].
+  unfold WSession.abs, WSession.readable, wclose. simpl. rewrite Hf.
+  destruct (ws_init st) eqn:Ei.
+  - rewrite Hs, Hst, map_app, cut_app by (destruct (datas ms2); [contradiction | discriminate]).
+    destruct (cut_total (datas ms2) (c ++ concat (datas ms2))) as [sl [Hc Hsn]];
+      [rewrite app_length; lia|].
+    rewrite Hc. simpl. rewrite info_app, (assign_app ms1 (info ms2) sl (no_crc_app_l _ _ Hn)).
+    destruct (assign_total ms2 sl) as [tail [Ht Hnm]].
+    { intros m Hm; apply Hn; apply in_or_app; right; exact Hm. }
+    { rewrite <- (map_length snd sl), Hsn, map_length. reflexivity. }
+    rewrite Ht. exists tail. split; [reflexivity | exact Hnm].
+  - destruct ms2; [contradiction | ]. specialize (Hi eq_refl). destruct ms1; discriminate.
+Qed.
+
+Lemma gsynced_fail_clean : forall st ms1 c ms2 i, gsynced st ms1 c ms2 -> (i = ws_init st \/ i = true) ->
+  gsynced (fail_state st i []) ms1 c ms2.
+Proof.
+  intros st ms1 c ms2 i [Hp Hd Hs Hst Hi] Hii. constructor; simpl; auto.
+  - rewrite app_nil_r. exact Hst.
+  - destruct Hii as [-> | ->]; [exact Hi | discriminate].
+Qed.
+
+Lemma gsynced_ok : forall st ms1 c ms2 f' f, gsynced st ms1 c ms2 ->
+  w_name f' = w_name f -> w_kind f' = w_kind f -> w_data f' = w_data f ->
+  gsynced (ok_state st f' f) ms1 c (ms2 ++ [full_member f]).
+Proof.
+  intros st ms1 c ms2 f' f [Hp Hd Hs Hst Hi] Hn Hk Hda.
+  assert (Hfm : full_member f' = full_member f) by (unfold full_member, is_dir; rewrite Hn, Hk, Hda; reflexivity).
+  constructor; simpl.
+  - reflexivity.
+  - rewrite map_app, Hd. simpl. rewrite Hfm, app_assoc. reflexivity.
+  - rewrite Hs, datas_app, app_assoc, (map_app sub_of (datas ms1 ++ datas ms2)). f_equal.
+    unfold sub_list, full_member. destruct (is_dir f); reflexivity.
+  - rewrite Hst, datas_app, concat_app, <- !app_assoc. do 3 f_equal.
+    unfold byte_list, full_member. destruct (is_dir f); simpl; rewrite ?app_nil_r; reflexivity.
+  - discriminate.
+Qed.
+
+Lemma call_gsynced : forall st ms1 c ms2 a s,
+  gsynced st ms1 c ms2 -> dirty a s = false ->
+  exists st', api_step a st s = (st', expected_out (OCall a s)) /\
+              gsynced st' ms1 c (ms2 ++ expected (OCall a s)).
+Proof.
+  intros st ms1 c ms2 a s Hg Hd. pose proof (api_step_spec st a s (gs_pend _ _ _ _ Hg)) as Hs.
+  simpl in *. destruct (fires a s).
+  - destruct Hs as [i [c' [E [Hii Hc]]]]. rewrite (Hc Hd) in E. eexists. split; [exact E|].
+    rewrite app_nil_r. apply gsynced_fail_clean; assumption.
+  - destruct Hs as [f' [E [Hn [Hk Hda]]]]. eexists. split; [exact E|]. apply gsynced_ok; assumption.
+Qed.
+
+Lemma loop_gsynced : forall l st ms1 c ms2,
+  gsynced st ms1 c ms2 -> forallb (fun s => negb (dirty AWrite s)) l = true ->
+  exists st', writeall_loop st l = (st', if existsb (fires AWrite) l then Raised else Returned) /\
+              gsynced st' ms1 c (ms2 ++ map (fun s => full_member (file_of_src AWrite s)) (ok_prefix l)).
+Proof.
+  induction l as [|s l IH]; intros st ms1 c ms2 Hg Hcl.
+  - exists st. simpl. rewrite app_nil_r. split; [reflexivity | exact Hg].
+  - simpl in Hcl. apply andb_true_iff in Hcl. destruct Hcl as [Hc1 Hc2]. apply negb_true_iff in Hc1.
+    pose proof (elem_spec st s (gs_pend _ _ _ _ Hg)) as Hs. cbv zeta in Hs.
+    change (writeall_loop st (s :: l)) with
+      (match elem_writeall st s with (st', Raised) => (st', Raised) | (st', Returned) => writeall_loop st' l end).
+    change (existsb (fires AWrite) (s :: l)) with (fires AWrite s || existsb (fires AWrite) l).
+    change (ok_prefix (s :: l)) with (if fires AWrite s then [] else s :: ok_prefix l).
+    destruct (fires AWrite s).
+    + destruct Hs as [i [c' [E [Hii Hc]]]]. rewrite (Hc Hc1) in E. rewrite E. simpl.
+      eexists. split; [reflexivity|]. rewrite app_nil_r. apply gsynced_fail_clean; assumption.
+    + destruct Hs as [f' [E [Hn [Hk Hda]]]]. rewrite E. simpl orb.
+      destruct (IH _ ms1 c _ (gsynced_ok _ _ _ _ _ _ Hg Hn Hk Hda) Hc2) as [st' [H2 S2]].
+      exists st'. split; [exact H2|]. rewrite <- app_assoc in S2. exact S2.
+Qed.
+
+Lemma wstep_gsynced : forall st ms1 c ms2 op,
+  gsynced st ms1 c ms2 -> clean_op op = true ->
+  exists st', wstep st op = (st', expected_out op) /\ gsynced st' ms1 c (ms2 ++ expected op).
+Proof.
+  intros st ms1 c ms2 [a s | rm l] Hg Hc.
+  - rewrite wstep_call. apply call_gsynced; [exact Hg|]. simpl in Hc. apply negb_true_iff in Hc. exact Hc.
+  - simpl in *. destruct rm.
+    + exists st. rewrite app_nil_r. split; [reflexivity | exact Hg].
+    + apply loop_gsynced; assumption.
+Qed.
+
+Lemma run_gsynced : forall ops st ms1 c ms2,
+  gsynced st ms1 c ms2 -> forallb clean_op ops = true ->
+  exists st', run st ops = (st', map expected_out ops) /\ gsynced st' ms1 c (ms2 ++ flat_map expected ops).
+Proof.
+  induction ops as [|op ops IH]; intros st ms1 c ms2 Hg Hc.
+  - exists st. simpl. rewrite app_nil_r. split; [reflexivity | exact Hg].
+  - simpl in Hc. apply andb_true_iff in Hc. destruct Hc as [Hc1 Hc2].
+    destruct (wstep_gsynced st ms1 c ms2 op Hg Hc1) as [st1 [H1 S1]].
+    destruct (IH st1 _ _ _ S1 Hc2) as [st' [H2 S2]].
+    exists st'. simpl. rewrite H1, H2. split; [reflexivity|].
+    rewrite <- app_assoc in S2. exact S2.
+Qed.
+
+Lemma gsynced_st0 : gsynced st0 [] [] [].
+Proof. constructor; reflexivity. Qed.
+
+(* histories of any length over write/writestr/writef/writeall with any faults except read()
+   raising after k > 0 bytes (source missing, lstat/open/readlink raising once or for good,
+   arcname or argument rejected, read raising at the first byte, in any number): every failure
+   reaches the caller and only those calls raise; a reader of the closed archive gets exactly the
+   members of the calls that returned, in order, with their complete bytes *)
+Theorem later_writes_intact : forall ops, forallb clean_op ops = true ->
+  exists st, run st0 ops = (st, map expected_out ops) /\ abs st = Some (flat_map expected ops).
+Proof.
+  intros ops Hc. destruct (run_gsynced ops st0 [] [] [] gsynced_st0 Hc) as [st [H S]].
+  exists st. split; [exact H|]. simpl in S. exact (readable_clean _ _ S).
+Qed.
+
+Lemma run_app : forall a b st, run st (a ++ b) =
+  let '(st1, o1) := run st a in let '(st2, o2) := run st1 b in (st2, o1 ++ o2).
+Proof.
+  induction a as [|op a IH]; intros b st; simpl.
+  - destruct (run st b); reflexivity.
+  - destruct (wstep st op) as [st1 o]. rewrite IH. destruct (run st1 a) as [st2 o1].
+    destruct (run st2 b) as [st3 o2]. reflexivity.
+Qed.
+
+(* one call fails after k > 0 bytes were read, everything else is clean: every call's outcome is
+   still as expected, and as soon as a member with data is written after the failed call the
+   members written before it are all present and intact (the members after it are listed, their
+   bytes do not pass the check) *)
+Theorem members_before_intact : forall pre a s post,
+  forallb clean_op pre = true -> forallb clean_op post = true -> fires a s = true ->
+  datas (flat_map expected post) <> [] ->
+  exists st tail, run st0 (pre ++ OCall a s :: post) = (st, map expected_out (pre ++ OCall a s :: post)) /\
+    abs st = Some (flat_map expected pre ++ tail) /\ map fst tail = map fst (flat_map expected post).
+Proof.
+  intros pre a s post Hpre Hpost Hf Hne.
+  destruct (run_gsynced pre st0 [] [] [] gsynced_st0 Hpre) as [st1 [H1 S1]]. simpl in S1.
+  pose proof (api_step_spec st1 a s (gs_pend _ _ _ _ S1)) as Hs. simpl in Hs. rewrite Hf in Hs.
+  destruct Hs as [i [c [E [Hii _]]]].
+  assert (S2 : gsynced (fail_state st1 i c) (flat_map expected pre) c []).
+  { destruct S1 as [Hp Hd Hs Hst Hi]. simpl in *. constructor; simpl; rewrite ?app_nil_r; auto.
+    - rewrite Hst. reflexivity.
+    - destruct Hii as [-> | ->]; [exact Hi | discriminate]. }
+  destruct (run_gsynced post _ _ _ _ S2 Hpost) as [st3 [H3 S3]]. simpl in S3.
+  destruct (readable_before _ _ _ _ S3 Hne) as [tail [Ha Hn]].
+  exists st3, tail. split; [|split; assumption].
+  rewrite run_app, H1.
+  change (run st1 (OCall a s :: post)) with
+    (let '(s1, o) := wstep st1 (OCall a s) in let '(s2, os) := run s1 post in (s2, o :: os)).
+  rewrite wstep_call, E, H3, map_app. simpl. rewrite Hf. reflexivity.
+Qed.
+
+(* ------------------------------------------------------------------ *)
+(** * no_retry: nothing of a failed source enters the archive           *)
+(* ------------------------------------------------------------------ *)
+
+Definition from_ok_src (srcs : list (api * src)) (p : wfile * nat) : Prop :=
+  exists a s, In (a, s) srcs /\ fires a s = false /\ full_member (fst p) = full_member (file_of_src a s).
+
+Lemma from_ok_weaken : forall l1 l2 done, Forall (from_ok_src l1) done -> Forall (from_ok_src (l1 ++ l2)) done.
+Proof.
+  intros l1 l2 done H. eapply Forall_impl; [|exact H]. intros p [a [s [Hin H']]].
+  exists a, s. split; [apply in_or_app; left; exact Hin | exact H'].
+Qed.
+
+Lemma ok_state_from : forall st f' a s srcs, Forall (from_ok_src srcs) (ws_done st) -> fires a s = false ->
+  w_name f' = w_name (file_of_src a s) -> w_kind f' = w_kind (file_of_src a s) ->
+  w_data f' = w_data (file_of_src a s) ->
+  Forall (from_ok_src (srcs ++ [(a, s)])) (ws_done (ok_state st f' (file_of_src a s))).
+Proof.
+  intros st f' a s srcs H Hf Hn Hk Hd. simpl. apply Forall_app. split.
+  - apply from_ok_weaken. exact H.
+  - constructor; [|constructor]. exists a, s. split; [apply in_or_app; right; left; reflexivity|].
+    split; [exact Hf|]. simpl. unfold full_member, is_dir. rewrite Hn, Hk, Hd. reflexivity.
+Qed.
+
+Lemma loop_from : forall l st st' o srcs, inv st -> Forall (from_ok_src srcs) (ws_done st) ->
+  writeall_loop st l = (st', o) ->
+  Forall (from_ok_src (srcs ++ map (fun s => (AWrite, s)) l)) (ws_done st').
+Proof.
+  induction l as [|s l IH]; intros st st' o srcs Hi H E; simpl in E.
+  - inversion E; subst. apply from_ok_weaken. exact H.
+  - pose proof (elem_spec st s (iv_pend st Hi)) as Hs. cbv zeta in Hs.
+    change (map (fun s0 => (AWrite, s0)) (s :: l)) with ((AWrite, s) :: map (fun s0 => (AWrite, s0)) l).
+    destruct (fires AWrite s) eqn:Ef.
+    + destruct Hs as [i [c [E1 _]]]. rewrite E1 in E. inversion E; subst.
+      apply (from_ok_weaken srcs). exact H.
+    + destruct Hs as [f' [E1 [Hn [Hk Hd]]]]. rewrite E1 in E.
+      pose proof (ok_state_from st f' AWrite s srcs H Ef Hn Hk Hd) as H'.
+      pose proof (IH _ _ _ _ (inv_ok st f' _ Hi Hk Hd) H' E) as H2.
+      rewrite <- app_assoc in H2. exact H2.
+Qed.
+
+Lemma run_from : forall ops st st' outs srcs, inv st -> Forall (from_ok_src srcs) (ws_done st) ->
+  run st ops = (st', outs) -> Forall (from_ok_src (srcs ++ flat_map op_srcs ops)) (ws_done st').
+Proof.
+  induction ops as [|op ops IH]; intros st st' outs srcs Hi H E; simpl in E.
+  - inversion E; subst. apply from_ok_weaken. exact H.
+  - destruct (wstep st op) as [st1 o] eqn:E1. destruct (run st1 ops) as [st2 os] eqn:E2.
+    inversion E; subst. simpl. rewrite app_assoc. eapply IH; [eapply inv_wstep; eauto | | exact E2].
+    destruct op as [a s | rm l].
+    + rewrite wstep_call in E1. pose proof (api_step_spec st a s (iv_pend st Hi)) as Hs. simpl in Hs.
+      destruct (fires a s) eqn:Ef.
+      * destruct Hs as [i [c [E3 _]]]. rewrite E3 in E1. inversion E1; subst. simpl.
+        apply from_ok_weaken. exact H.
+      * destruct Hs as [f' [E3 [Hn [Hk Hd]]]]. rewrite E3 in E1. inversion E1; subst.
+        apply ok_state_from; assumption.
+    + simpl in E1. destruct rm.
+      * inversion E1; subst. apply from_ok_weaken. exact H.
+      * eapply loop_from; eauto.
+Qed.
+
+(* ANY history, ANY faults: every entry of the closed archive's header was registered by a call
+   (or writeall member) whose fault did not fire, i.e. that returned; no source is touched twice *)
+Theorem no_retry : forall ops st outs, run st0 ops = (st, outs) ->
+  ws_pend st = [] /\
+  forall f, In f (ws_files st) -> exists a s, In (a, s) (flat_map op_srcs ops) /\ fires a s = false /\
+                                               full_member f = full_member (file_of_src a s).
+Proof.
+  intros ops st outs H. pose proof (inv_run _ _ _ _ inv_st0 H) as Hi.
+  split; [exact (iv_pend st Hi)|].
+  pose proof (run_from ops st0 st outs [] inv_st0 (Forall_nil _) H) as Hf. simpl in Hf.
+  intros f Hin. unfold ws_files in Hin. rewrite (iv_pend st Hi), app_nil_r in Hin.
+  apply in_map_iff in Hin. destruct Hin as [p [<- Hp]]. rewrite Forall_forall in Hf. exact (Hf p Hp).
+Qed.
+
+(* ------------------------------------------------------------------ *)
+(** * Whatever failed: a member that passes its check has the right bytes *)
+(* ------------------------------------------------------------------ *)
+
+Section Injective.
+Hypothesis dg_inj : forall x y, dg x = dg y -> x = y.
+
+Lemma assign_match : forall fl (sl : list (bytes * D)) ms,
+  map snd sl = map dg (fulldatas fl) -> assign (map (fun f => (w_name f, is_dir f)) fl) sl = Some ms ->
+  Forall2 right_or_crc fl ms.
+Proof.
+  induction fl as [|f fl IH]; intros sl ms Hc Ha.
+  - simpl in Ha. destruct sl; [|discriminate]. inversion Ha. constructor.
+  - simpl in Ha. unfold fulldatas in Hc. simpl in Hc. fold (fulldatas fl) in Hc.
+    destruct (is_dir f) eqn:Ed.
+    + destruct (assign _ sl) as [ms'|] eqn:E; [|discriminate]. inversion Ha; subst.
+      constructor; [|exact (IH _ _ Hc E)].
+      split; [reflexivity|]. left. unfold full_member. rewrite Ed. reflexivity.
+    + destruct sl as [|[bs c] sl]; [discriminate|]. simpl in Hc. injection Hc as Hc1 Hc2.
+      destruct (assign _ sl) as [ms'|] eqn:E; [|discriminate]. inversion Ha; subst.
+      constructor; [|exact (IH _ _ Hc2 E)].
+      split; [reflexivity|]. simpl. destruct (deq (dg bs) (dg (w_data f))) eqn:Eq.
+      * left. apply deq_spec in Eq. apply dg_inj in Eq. subst bs. unfold full_member. rewrite Ed. reflexivity.
+      * right. reflexivity.
+Qed.
+
+Lemma cut_digests : forall (subs : list (nat * D)) stream sl, cut subs stream = Some sl -> map snd sl = map snd subs.
 Proof.
   induction subs as [|[n c] r IH]; intros stream sl H.
-  - inversion H; subst. split; [reflexivity | intros X; contradiction].
+  - inversion H; reflexivity.
   - destruct r as [|x r'].
-    + inversion H; subst. simpl. rewrite app_nil_r. auto.
+    + inversion H; reflexivity.
     + rewrite cut_cons in H by discriminate.
       destruct (n <=? length stream)%nat; [|discriminate].
       destruct (cut (x :: r') (skipn n stream)) as [sl'|] eqn:E; [|discriminate].
-      inversion H; subst. destruct (IH _ _ E) as [I1 I2]. split.
-      * simpl. rewrite I1. reflexivity.
-      * intros _. simpl. rewrite I2 by discriminate. apply firstn_skipn.
+      inversion H; subst. simpl. rewrite (IH _ _ E). reflexivity.
+Qed.
+
+(* ANY history with ANY faults (including sources failing after k > 0 bytes, any number of times):
+   if the closed archive can be read, every entry is a member some call registered, and for each
+   the reader gets either the complete bytes of its source or a check failure -- never other bytes *)
+Theorem midway_member_right : forall ops st outs ms,
+  run st0 ops = (st, outs) -> abs st = Some ms -> Forall2 right_or_crc (ws_files st) ms.
+Proof.
+  intros ops st outs ms H Ha. pose proof (inv_run _ _ _ _ inv_st0 H) as [H1 H2 H3 H4].
+  unfold WSession.abs, WSession.readable, wclose in Ha. simpl in Ha.
+  unfold ws_files in *. rewrite H1, app_nil_r in *.
+  destruct (ws_init st) eqn:Ei.
+  - destruct (cut (ws_subs st) (ws_stream st)) as [sl|] eqn:Ec; [|discriminate].
+    apply (assign_match _ sl); [|exact Ha].
+    rewrite (cut_digests _ _ _ Ec), H3, map_map. reflexivity.
+  - rewrite (H4 eq_refl) in *. simpl in Ha. inversion Ha. constructor.
 Qed.
 
 Lemma all_pass_cons : forall m ms, all_pass (m :: ms) = true -> is_crc m = false /\ all_pass ms = true.
@@ -544,118 +743,18 @@ Proof.
   apply orb_false_iff in H. destruct H as [H1 H2]. rewrite H2. auto.
 Qed.
 
-Lemma assign_pass : forall files sl ms, assign files sl = Some ms -> all_pass ms = true ->
-  Forall (fun x => dg (fst x) = snd x) sl /\ ms = rebuild files (map fst sl) /\ length sl = count_data files.
-Proof.
-  induction files as [|[n e] r IH]; intros sl ms H Hp.
-  - simpl in H. destruct sl; [|discriminate]. inversion H; subst. auto.
-  - destruct e.
-    + simpl in H. destruct (assign r sl) as [ms'|] eqn:E; [|discriminate].
-      inversion H; subst. apply all_pass_cons in Hp. destruct Hp as [_ Hp].
-      destruct (IH _ _ E Hp) as [I1 [I2 I3]]. split; [exact I1|]. split.
-      * simpl. rewrite <- I2. reflexivity.
-      * exact I3.
-    + simpl in H. destruct sl as [|[bs c] sl']; [discriminate|].
-      destruct (assign r sl') as [ms'|] eqn:E; [|discriminate].
-      inversion H; subst. apply all_pass_cons in Hp. destruct Hp as [Hc Hp].
-      destruct (IH _ _ E Hp) as [I1 [I2 I3]].
-      destruct (deq (dg bs) c) eqn:Eq; [|discriminate].
-      apply deq_spec in Eq. split; [constructor; [exact Eq | exact I1]|]. split.
-      * simpl. rewrite <- I2. reflexivity.
-      * unfold count_data in *. simpl. rewrite I3. reflexivity.
-Qed.
-
-Section Injective.
-Hypothesis dg_inj : forall x y, dg x = dg y -> x = y.
-
-Lemma slices_are_recs : forall (sl : list (bytes * D)) recs,
-  map snd sl = map dg recs -> Forall (fun x => dg (fst x) = snd x) sl -> map fst sl = recs.
-Proof.
-  induction sl as [|[b c] sl IH]; intros recs Hm Hf; destruct recs as [|r recs]; try discriminate; [reflexivity|].
-  simpl in Hm. inversion Hm; subst. inversion Hf; subst. simpl in *.
-  f_equal; [apply dg_inj; assumption | apply IH; assumption].
-Qed.
-End Injective.
-
-Lemma sum_sizes_recs : forall recs, sum_sizes (map sub_of recs) = length (concat recs).
-Proof. induction recs as [|r recs IH]; simpl; [reflexivity|]. rewrite app_length, IH. reflexivity. Qed.
-
-Definition finfo (l : list wfile) : list (Z * bool) := map (fun f => (w_name f, is_dir f)) l.
-
-Lemma count_data_app : forall a b, count_data (a ++ b) = (count_data a + count_data b)%nat.
-Proof. intros. unfold count_data. rewrite filter_app, app_length. reflexivity. Qed.
-
-Lemma count_done : forall done, count_data (finfo (map fst done)) = length (recs_of done).
-Proof.
-  induction done as [|p done IH]; [reflexivity|].
-  unfold count_data, finfo in *. simpl. destruct (is_dir (fst p)); simpl; rewrite IH; reflexivity.
-Qed.
-
-Lemma rebuild_done : forall done rest bl,
-  (forall p, In p done -> is_dir (fst p) = false -> snd p = O) ->
-  rebuild (finfo (map fst done) ++ rest) (recs_of done ++ bl) =
-  map (fun p => full_member (fst p)) done ++ rebuild rest bl.
-Proof.
-  induction done as [|p done IH]; intros rest bl H; [reflexivity|].
-  assert (H' : forall q, In q done -> is_dir (fst q) = false -> snd q = O) by (intros q Hq; apply H; right; exact Hq).
-  unfold finfo in *. simpl. unfold full_member at 1. destruct (is_dir (fst p)) eqn:Ed.
-  - simpl. rewrite (IH rest bl H'). reflexivity.
-  - simpl. rewrite (IH rest bl H'). unfold rec_bytes. rewrite (H p (or_introl eq_refl) Ed). reflexivity.
-Qed.
-
-Lemma rebuild_dirs : forall pend, count_data (finfo pend) = O -> rebuild (finfo pend) [] = map full_member pend.
-Proof.
-  induction pend as [|f pend IH]; intros H; [reflexivity|].
-  unfold count_data, finfo in *. simpl in *. unfold full_member at 1.
-  destruct (is_dir f); simpl in *; [|discriminate]. rewrite (IH H). reflexivity.
-Qed.
-
-Section Injective2.
-Hypothesis dg_inj : forall x y, dg x = dg y -> x = y.
-
-(* whatever faults occurred: if the closed archive can be read and every member passes its
-   check, every registered member is there with the complete bytes of its source *)
-Lemma inv_readable_right : forall st ms, inv st -> abs st = Some ms -> all_pass ms = true ->
-  ms = map full_member (ws_files st).
-Proof.
-  intros st ms Hi Ha Hp. destruct Hi as [H1 H2 H3 H4 H5].
-  unfold WSession.abs, WSession.readable, wclose in Ha. simpl in Ha.
-  destruct (ws_init st) eqn:Ei.
-  - destruct (cut (ws_subs st) (ws_stream st)) as [sl|] eqn:Ec; [|discriminate].
-    destruct (assign_pass _ _ _ Ha Hp) as [A1 [A2 A3]].
-    destruct (cut_props _ _ _ Ec) as [C1 C2].
-    rewrite H1, map_map in C1. simpl in C1.
-    pose proof (slices_are_recs dg_inj sl (recs_of (ws_done st)) C1 A1) as Hsl.
-    assert (Hskip : forall p, In p (ws_done st) -> is_dir (fst p) = false -> snd p = O).
-    { intros p Hin Hd. destruct (recs_of (ws_done st)) as [|r0 rs] eqn:Er.
-      - exfalso. clear -Hin Hd Er. induction (ws_done st) as [|q l IH]; [contradiction|].
-        unfold recs_of in Er. simpl in Er. destruct Hin as [-> | Hin].
-        + rewrite Hd in Er. discriminate.
-        + apply IH; [|exact Hin]. destruct (is_dir (fst q)); [exact Er | discriminate].
-      - assert (Hne : ws_subs st <> []) by (rewrite H1; discriminate).
-        specialize (C2 Hne). rewrite Hsl in C2.
-        assert (Hg : ws_garb st = O).
-        { rewrite H1 in H2. rewrite <- C2 in H2. rewrite sum_sizes_recs in H2. lia. }
-        rewrite Forall_forall in H3. specialize (H3 p Hin). lia. }
-    unfold ws_files in *. rewrite map_app in A2, A3.
-    change (map (fun f => (w_name f, is_dir f)) (map fst (ws_done st))) with (finfo (map fst (ws_done st))) in A2, A3.
-    change (map (fun f => (w_name f, is_dir f)) (ws_pend st)) with (finfo (ws_pend st)) in A2, A3.
-    rewrite count_data_app, count_done, <- Hsl, map_length in A3.
-    assert (Hpd : count_data (finfo (ws_pend st)) = O) by lia.
-    rewrite A2, Hsl, map_app. rewrite <- (app_nil_r (recs_of (ws_done st))).
-    rewrite (rebuild_done _ _ _ Hskip), (rebuild_dirs _ Hpd), map_map. reflexivity.
-  - destruct (H5 eq_refl) as [Hd Hpn]. unfold ws_files in *. rewrite Hd, Hpn in *. simpl in Ha.
-    inversion Ha. reflexivity.
-Qed.
-
 Theorem midway_failure_not_wrong : forall ops st outs ms,
   run st0 ops = (st, outs) -> abs st = Some ms -> all_pass ms = true ->
   ms = map full_member (ws_files st).
 Proof.
-  intros ops st outs ms H Ha Hp. eapply inv_readable_right; eauto.
-  eapply inv_run; [apply inv_st0 | exact H].
+  intros ops st outs ms H Ha Hp. pose proof (midway_member_right ops st outs ms H Ha) as HF.
+  clear -HF Hp. induction HF as [|f m fl ms' [Hn Hm] HF IH]; [reflexivity|].
+  apply all_pass_cons in Hp. destruct Hp as [Hc Hp]. simpl. rewrite <- (IH Hp). f_equal.
+  destruct m as [n r]. simpl in *. subst n. destruct Hm as [-> | ->].
+  - unfold full_member. reflexivity.
+  - discriminate.
 Qed.
-End Injective2.
+End Injective.
 
 End Proofs.
 
@@ -678,16 +777,16 @@ Proof. intros. apply Z.eqb_eq. Qed.
 
 Definition wstep32 := @wstep Z crc32.
 
-Corollary later_writes_intact_crc32 : forall ops,
-  forallb pre_only ops = true -> links_ok false ops = true ->
+Corollary later_writes_intact_crc32 : forall ops, forallb clean_op ops = true ->
   exists st, run32 st0 ops = (st, map expected_out ops) /\ abs32 st = Some (flat_map expected ops).
-Proof. exact (later_writes_intact_partial crc32 Z.eqb zeqb_spec). Qed.
+Proof. exact (later_writes_intact crc32 Z.eqb zeqb_spec). Qed.
 
 (* ------------------------------------------------------------------ *)
-(** * Witnesses (executable instance, CRC-32)                           *)
+(** * Concrete histories (executable instance, CRC-32)                  *)
 (* ------------------------------------------------------------------ *)
 
 Definition sx := mkSrc 0 KData [88; 88] None.
+Definition sw := mkSrc 9 KData [87; 87; 87] None.
 Definition sy := mkSrc 4 KData [89; 89; 89] None.
 Definition sb := mkSrc 2 KFile [66; 66; 66] None.
 Definition sdir := mkSrc 3 KDir [] None.
@@ -697,92 +796,58 @@ Definition sa_read (k : nat) (sticky : bool) :=
   mkSrc 1 KData [65; 65; 65; 65; 65; 65; 65; 65] (Some (mkFault (FRead k) sticky)).
 Definition s_missing := mkSrc 6 KFile [67] (Some (mkFault FStat true)).
 Definition s_badname := mkSrc 7 KData [68] (Some (mkFault FName true)).
+Definition s_dangling := mkSrc 8 KLink [110] (Some (mkFault FOpen true)).
+
+(* what remains after a source failed midway: the k bytes stay in the folder.  When nothing with
+   data is written afterwards, the LAST member written before the failed call absorbs them (the
+   size of the last sub-stream of a folder is implied) and fails its check; the others are intact *)
+Definition ops_midway_last := [OCall AWritestr sx; OCall AWritestr sw; OCall AWritef (sa_read 3 false); OCall AWrite sdir].
+Theorem member_before_midway_failure_refuted :
+  forallb clean_op [OCall AWritestr sx; OCall AWritestr sw] = true /\
+  snd (run32 st0 ops_midway_last) = [Returned; Returned; Raised; Returned] /\
+  ws_garb (fst (run32 st0 ops_midway_last)) = 3%nat /\
+  abs32 (fst (run32 st0 ops_midway_last)) = Some [(0, MData [88; 88]); (9, MCrc); (3, MDir)].
+Proof. vm_compute. repeat split; reflexivity. Qed.
+
+(* when a member with data follows, the members before are intact and the ones after fail their check *)
+Definition ops_midway := [OCall AWritestr sx; OCall AWritestr sw; OCall AWritef (sa_read 3 false);
+                          OCall AWritestr sy; OCall AWrite sdir].
+Theorem midway_failure_example :
+  snd (run32 st0 ops_midway) = [Returned; Returned; Raised; Returned; Returned] /\
+  map (fun f => (w_name f, w_data f)) (ws_files (fst (run32 st0 ops_midway))) =
+    [(0, [88; 88]); (9, [87; 87; 87]); (4, [89; 89; 89]); (3, [])] /\
+  abs32 (fst (run32 st0 ops_midway)) =
+    Some [(0, MData [88; 88]); (9, MData [87; 87; 87]); (4, MCrc); (3, MDir)].
+Proof. vm_compute. repeat split; reflexivity. Qed.
+
+(* non-vacuity of the positive theorems; these are the histories that poisoned the archive before the repair *)
+Example later_writes_intact_example :
+  let ops := [OCall AWritestr sx; OCall AWrite (sa_open true); OCall AWrite slink; OCall AWrite s_missing;
+              OCall AWritef s_badname; OCall AWrite s_dangling; OCall AWritef (sa_read 0 false);
+              OWriteall false [sdir; sb; sa_open false; sy];
+              OWriteall true [sdir]; OCall AWritef sy] in
+  forallb clean_op ops = true /\
+  snd (run32 st0 ops) = [Returned; Raised; Returned; Raised; Raised; Raised; Raised; Raised; Raised; Returned] /\
+  abs32 (fst (run32 st0 ops)) =
+    Some [(0, MData [88; 88]); (5, MData [116]); (3, MDir); (2, MData [66; 66; 66]); (4, MData [89; 89; 89])].
+Proof. vm_compute. repeat split; reflexivity. Qed.
 
 Lemma reachable_run : forall ops, reachable crc32 (fst (run32 st0 ops)).
 Proof. intros ops. exists ops, (snd (run32 st0 ops)). unfold run32. destruct (run crc32 st0 ops); reflexivity. Qed.
 
-(* write() registers before Worker.archive opens the source: the failed call changes what a reader gets *)
-Theorem failed_call_no_effect_refuted : exists st op st',
-  reachable crc32 st /\ wstep32 st op = (st', Raised) /\
-  abs32 st = Some [(0, MData [88; 88])] /\ abs32 st' = None.
-Proof.
-  exists (fst (run32 st0 [OCall AWritestr sx])), (OCall AWrite (sa_open true)).
-  exists (fst (wstep32 (fst (run32 st0 [OCall AWritestr sx])) (OCall AWrite (sa_open true)))).
-  split; [apply reachable_run|]. vm_compute. repeat split; reflexivity.
-Qed.
-
-(* ... and the archive stays unreadable whatever is written afterwards: members written before and
-   after the failed call are lost; the later (valid) call raises the earlier call's error *)
-Definition ops_open_sticky := [OCall AWritestr sx; OCall AWrite (sa_open true); OCall AWritestr sy].
-Theorem open_failure_poisons :
-  snd (run32 st0 ops_open_sticky) = [Returned; Raised; Raised] /\
-  abs32 (fst (run32 st0 ops_open_sticky)) = None /\
-  map expected_out ops_open_sticky = [Returned; Raised; Returned] /\
-  flat_map expected ops_open_sticky = [(0, MData [88; 88]); (4, MData [89; 89; 89])].
-Proof. vm_compute. repeat split; reflexivity. Qed.
-
-(* with a fault that is gone when the source is touched again, the next call returns, but it has
-   archived the failed source and not its own *)
-Definition ops_open_once := [OCall AWritestr sx; OCall AWrite (sa_open false); OCall AWrite sb].
-Theorem open_failure_once_poisons :
-  snd (run32 st0 ops_open_once) = [Returned; Raised; Returned] /\
-  abs32 (fst (run32 st0 ops_open_once)) = None /\
-  map fst (ws_subs (fst (run32 st0 ops_open_once))) = [2%nat; 4%nat] /\
-  ws_cur (fst (run32 st0 ops_open_once)) = 2%nat /\ length (ws_files (fst (run32 st0 ops_open_once))) = 3%nat.
-Proof. vm_compute. repeat split; reflexivity. Qed.
-
-(* the general statement of later_writes_intact without the side condition on links is false even
-   without any fault: _find_link_target fails on a valid link after a writestr member *)
-Definition ops_link_after_data := [OCall AWritestr sx; OCall AWrite slink].
-Theorem later_writes_intact_refuted :
-  forallb pre_only ops_link_after_data = true /\
-  map expected_out ops_link_after_data = [Returned; Returned] /\
-  snd (run32 st0 ops_link_after_data) = [Returned; Raised] /\
-  abs32 (fst (run32 st0 ops_link_after_data)) = None.
-Proof. vm_compute. repeat split; reflexivity. Qed.
-
-(* the failed source is archived behind the caller's back *)
-Definition ops_retry := [OCall AWrite (sa_open false); OCall AWrite sdir].
-Theorem no_retry_refuted :
-  snd (run32 st0 ops_retry) = [Raised; Returned] /\
-  failed_of ops_retry (snd (run32 st0 ops_retry)) = [1] /\
-  abs32 (fst (run32 st0 ops_retry)) = Some [(1, MData [65; 65; 65; 65]); (3, MDir)] /\
-  flat_map expected ops_retry = [(3, MDir)].
-Proof. vm_compute. repeat split; reflexivity. Qed.
-
-(* midway read failure, per member: a member can pass its CRC with the wrong (truncated) bytes;
-   the archive as a whole does not extract without error (the next member fails its CRC) *)
-Definition ops_midway := [OCall AWritestr sx; OCall AWritef (sa_read 3 false); OCall AWritestr sy; OCall AWrite sdir].
-Theorem midway_member_refuted :
-  snd (run32 st0 ops_midway) = [Returned; Raised; Returned; Returned] /\
-  map (fun f => (w_name f, w_data f)) (ws_files (fst (run32 st0 ops_midway))) =
-    [(0, [88; 88]); (1, [65; 65; 65; 65; 65; 65; 65; 65]); (4, [89; 89; 89]); (3, [])] /\
-  abs32 (fst (run32 st0 ops_midway)) =
-    Some [(0, MData [88; 88]); (1, MData [65; 65; 65; 65; 65]); (4, MCrc); (3, MDir)].
-Proof. vm_compute. repeat split; reflexivity. Qed.
-
-(* non-vacuity of the positive theorems *)
-Example later_writes_intact_example :
-  let ops := [OCall AWrite slink; OCall AWritestr sx; OCall AWrite s_missing; OCall AWritef s_badname;
-              OWriteall false [sdir; sb; mkSrc 8 KFile [69] (Some (mkFault FStat true)); sy];
-              OWriteall true [sdir]; OCall AWritef sy] in
-  forallb pre_only ops = true /\ links_ok false ops = true /\
-  snd (run32 st0 ops) = [Returned; Returned; Raised; Raised; Raised; Raised; Returned] /\
-  abs32 (fst (run32 st0 ops)) =
-    Some [(5, MData [116]); (0, MData [88; 88]); (3, MDir); (2, MData [66; 66; 66]); (4, MData [89; 89; 89])].
-Proof. vm_compute. repeat split; reflexivity. Qed.
-
-Example failed_call_no_effect_pre_example :
+Example failed_call_no_effect_example :
   let st := fst (run32 st0 [OCall AWritestr sx]) in
-  wstep32 st (OCall AWrite s_missing) = (set_init st, Raised) /\ abs32 (set_init st) = abs32 st /\
-  wstep32 st0 (OCall AWrite s_missing) = (set_init st0, Raised) /\ set_init (D:=Z) st0 <> st0 /\
-  abs32 (set_init st0) = Some [] /\ abs32 st0 = Some [].
+  fires AWrite (sa_open true) = true /\ dirty AWrite (sa_open true) = false /\
+  wstep32 st (OCall AWrite (sa_open true)) = (st, Raised) /\
+  wstep32 st0 (OCall AWrite (sa_open false)) = (set_init st0, Raised) /\ set_init (D:=Z) st0 <> st0 /\
+  abs32 (set_init st0) = Some [] /\ abs32 st0 = Some [] /\
+  fires AWritef (sa_read 3 true) = true /\ dirty AWritef (sa_read 3 true) = true /\
+  fires AWritestr (sa_read 3 true) = false /\ fires AWrite (mkSrc 3 KDir [] (Some (mkFault FOpen true))) = false.
 Proof. vm_compute. repeat split; try reflexivity. discriminate. Qed.
 
-Example midway_example :
-  let ops := [OCall AWritestr sx; OCall AWritef (sa_read 0 false); OCall AWrite sdir] in
-  snd (run32 st0 ops) = [Returned; Raised; Returned] /\
-  abs32 (fst (run32 st0 ops)) = Some [(0, MData [88; 88]); (1, MData [65; 65; 65; 65; 65; 65; 65; 65]); (3, MDir)] /\
-  ws_garb (fst (run32 st0 [OCall AWritef (sa_read 3 true)])) = 3%nat /\
-  abs32 (fst (run32 st0 [OCall AWritef (sa_read 3 true)])) = None.
+Example members_before_intact_example :
+  forallb clean_op [OCall AWritestr sx; OCall AWritestr sw] = true /\
+  forallb clean_op [OCall AWritestr sy; OCall AWrite sdir] = true /\
+  fires AWritef (sa_read 3 false) = true /\
+  flat_map expected [OCall AWritestr sy; OCall AWrite sdir] = [(4, MData [89; 89; 89]); (3, MDir)].
 Proof. vm_compute. repeat split; reflexivity. Qed.
